@@ -856,6 +856,12 @@ class IsoHybrid:
         padding = 0
         if frac > 0:
             padding = cylsize - frac
+        if self.efi:
+            # The backup GPT (128 partition entries and the header) is
+            # written at the very end of the image, so it needs that much
+            # padding; otherwise it lands on the last sectors of the ISO.
+            while padding < 128 * 128 + 512:
+                padding += cylsize
         cc = min((iso_size + padding) // cylsize, 1024)
 
         return (cc, padding)
